@@ -322,36 +322,38 @@ def storeConfig (store : Store) (field : String) : String × Bool :=
   | .no => (field, false)
   | .name n => (n, true)
 
-/-- one `fld.transform(method, field=…, store=…, process=…, keep_mean=…)` call.
-    `reserved` = the attribute names of the object (`dir(fld)`) that are not stored fields.
-    `check` = the wrapper's own checks run before the field is looked up. -/
+/-- the wrapper's own checks (`ValueError`), which run before the field is looked up -/
+def preCheck (c : Cfg α) (process : Bool) : Method α → Except String Unit
+  | .binary divide _ _ => if !process && divide.isNone then checkDefaultNormal c else pure ()
+  | .discrete _ (.equal _ _) => if !process then checkDefaultNormal c else pure ()
+  | .discrete _ _ => pure ()
+  | .boxcox _ _ => pure ()
+  | .lognormal => pure ()
+  | _ => if !process then checkDefaultNormal c else pure ()
+
+/-- `fld.post_field(out, name=name, process=False, save=save)` with `name, save = get_store_config(store, field)`.
+    `reserved` = the attribute names of the object (`dir(fld)`) that are not stored fields. -/
+def commit (reserved : List String) (st : FState α) (store : Store) (field : String) (out : List α) :
+    FState α × Except String (List α) :=
+  let ns := storeConfig store field
+  if ns.2 then
+    if !isIdentifier ns.1 || (!st.has ns.1 && reserved.contains ns.1) then (st, .error "ValueError")
+    else (st.set ns.1 out, .ok out)
+  else (st, .ok out)
+
+/-- one `fld.transform(method, field=…, store=…, process=…, keep_mean=…)` call -/
 def step (cdf ppf : α → α) (c : Cfg α) (reserved : List String) (st : FState α)
     (m : Method α) (field : String) (store : Store) (process keepMean : Bool) :
     FState α × Except String (List α) :=
-  -- the wrapper checks (ValueError) precede the lookup of the field (KeyError)
-  let pre : Except String Unit :=
-    match m with
-    | .binary divide _ _ => if !process && divide.isNone then checkDefaultNormal c else pure ()
-    | .discrete _ (.equal _ _) => if !process then checkDefaultNormal c else pure ()
-    | .discrete _ _ => pure ()
-    | .boxcox _ _ => pure ()
-    | .lognormal => pure ()
-    | _ => if !process then checkDefaultNormal c else pure ()
-  match pre with
+  match preCheck c process m with
   | .error e => (st, .error e)
   | .ok _ =>
     match st.lookup field with
     | none => (st, .error "KeyError")
     | some data =>
-      let (name, save) := storeConfig store field
       match fieldTransform cdf ppf c process keepMean data m with
       | .error e => (st, .error e)
-      | .ok out =>
-        if save then
-          if !isIdentifier name || (!st.has name && reserved.contains name) then
-            (st, .error "ValueError")
-          else (st.set name out, .ok out)
-        else (st, .ok out)
+      | .ok out => commit reserved st store field out
 
 /-! ## `erf`, `erfc`, `erfinv` for the driver (series / continued fraction / Newton; ~1e-15 on `Float`) -/
 
